@@ -567,11 +567,12 @@ fn run_one(ctx: &Ctx, bfs_shard: usize) -> ShardOut {
         return out;
     }
     let max_depth: u64 = 64;
-    let mut seen: HashSet<u64> = HashSet::new();
+    // physical fingerprint -> hash of the abstract model that was fully observed against it
+    let mut seen: std::collections::HashMap<u64, u64> = std::collections::HashMap::new();
     let mut abstract_seen: HashSet<u64> = HashSet::new();
     let mut frontier: VecDeque<(SparqlDatabase, Model, Vec<u16>)> = VecDeque::new();
     let db0 = fresh_db();
-    seen.insert(hash64(&db0.dataset_index.verif_fingerprint()));
+    seen.insert(hash64(&db0.dataset_index.verif_fingerprint()), hash64(&Model::default()));
     frontier.push_back((db0, Model::default(), vec![]));
     out.states = 1;
     let mut closed = true;
@@ -601,10 +602,22 @@ fn run_one(ctx: &Ctx, bfs_shard: usize) -> ShardOut {
                 continue;
             }
             let fp = hash64(&db2.dataset_index.verif_fingerprint());
-            if !seen.insert(fp) {
+            if let Some(validated) = seen.get(&fp) {
+                // This physical state was observed completely (all_quads, catalog, every lookup
+                // shape) against the model stored with it, so it denotes exactly that model. A
+                // transition that lands on it with a different expected model produced a wrong
+                // state (e.g. a rebuild dropping an empty graph, a delete removing a sibling key).
                 out.count("dedup_hits", 1);
+                if *validated != hash64(&m2) {
+                    let detail = match observe(&db2, &m2) {
+                        Err(e) => e,
+                        Ok(_) => "physical state already validated against a different abstract model".to_string(),
+                    };
+                    fail_seq(&mut out, &ops, ops.len() - 1, format!("after {:?}: {}", op, detail));
+                }
                 continue;
             }
+            seen.insert(fp, hash64(&m2));
             match observe(&db2, &m2) {
                 Ok(l) => out.count("bfs_lookups", l),
                 Err(e) => {
